@@ -125,7 +125,7 @@ theorem root_class (env : Env) (fuel : Nat) (cn tn : String) (sid : Nat) (sel : 
       resolve env fuel sel tn { addImports { marks := marks } ps with publicNames := [cn] } = .ok (x, st1) ∧
       cs = { name := cn, bases := classBases x.2 (ps.map (·.2)), fields := fields } :: rest ∧
       (∀ n ∈ x.2, n ∈ st.mixins) ∧ (∀ p ∈ ps, p ∈ st.mixinImports) := by
-  obtain ⟨x, st1, resolved, acc, fuel', _, hres, hloop, hcs⟩ :=
+  obtain ⟨x, st1, resolved, acc, fuel', _, hres, hloop, hcs, _⟩ :=
     parseTypeDefinition_unfold _ _ _ _ _ _ _ _ _ _ _ _ hp (by rfl)
   obtain ⟨g, _⟩ := (parse_spec env fuel).1 _ _ _ _ _ _ _ _ _ _ (imported_addImports _ ps) hp
   refine ⟨x, st1, acc.1, acc.2, hres, hcs, ?_, fun p hp' => g.imports p (List.mem_append_right _ hp')⟩
